@@ -11,6 +11,7 @@ MVdate(o) == [t |-> "date", s |-> "", n |-> <<o, 1>>]
 MVb(b) == [t |-> "bool", s |-> "", n |-> <<b, 1>>]
 MVa(a, b, c) == [t |-> "amount", s |-> c, n |-> <<a, b>>]
 MVnull == [t |-> "null", s |-> "", n |-> <<0, 1>>]
+MVm(s) == [t |-> "map", s |-> s, n |-> <<0, 1>>]     \* a dictionary str -> number, "CUR=num/den;..." sorted by key
 M0(line) == << <<"filename", MVs("<gen>")>>, <<"lineno", MVi(line)>> >>
 A(a, b, c) == [n |-> <<a, b>>, c |-> c]
 C(a, b, c, date, label) == [n |-> <<a, b>>, c |-> c, date |-> date, label |-> label]
@@ -48,22 +49,29 @@ KTwin == <<"isincode", MVs("lower-case-twin")>>
 BothCamelT == <<"bOth", MVs("camel-from-txn")>>
 BothCamelP == <<"bOth", MVs("camel-from-posting")>>
 KDash == <<"tax-Id_2", MVi(7)>>
+(* keys Beancount writes itself: the tolerances booking infers (on transactions), the mark of an interpolated posting,
+   a plugin's annotation (any directive); one of them on a posting AND on its transaction with different values *)
+KTol == <<"__tolerances__", MVm("EUR=1/100;USD=1/200")>>
+KTol0 == <<"__tolerances__", MVm("")>>
+KAuto == <<"__automatic__", MVb(1)>>
+KAutoT == <<"__automatic__", MVb(0)>>
+KPlug == <<"__plugin__", MVs("annotated")>>
 
 (* ---- the small alphabet of the exhaustive run: every directive kind, every structural option once ---- *)
 SmallAlpha == <<
-    Txn(D0, M0(1) \o <<BothT, K2T, BothCamelT>>, "*", Some("Payee"), "Narr", Some(<<"t1", "t2">>), Some(<<"l1">>),
-        << P(AcA, A(-10, 1, "USD"), NULL, NULL, NULL, Some(M0(2) \o <<K1s, BothP>>)),
+    Txn(D0, M0(1) \o <<BothT, K2T, BothCamelT, KTol, KAutoT>>, "*", Some("Payee"), "Narr", Some(<<"t1", "t2">>), Some(<<"l1">>),
+        << P(AcA, A(-10, 1, "USD"), NULL, NULL, NULL, Some(M0(2) \o <<K1s, BothP, KAuto>>)),
            P(AcF, A(10, 1, "USD"), NULL, NULL, Some("!"), NULL) >>),
-    Txn(D1, M0(3) \o <<K1s>>, "!", NULL, "", Some(<<>>), Some(<<>>),
-        << P(AcA, A(2, 1, "HOOL"), Some(C(21, 4, "USD", Some(D0), Some("lot1"))), Some(A(6, 1, "USD")), NULL, Some(M0(4))),
+    Txn(D1, M0(3) \o <<K1s, KTol0>>, "!", NULL, "", Some(<<>>), Some(<<>>),
+        << P(AcA, A(2, 1, "HOOL"), Some(C(21, 4, "USD", Some(D0), Some("lot1"))), Some(A(6, 1, "USD")), NULL, Some(M0(4) \o <<KAuto>>)),
            P(AcA, A(-21, 2, "USD"), NULL, NULL, NULL, Some(M0(5) \o <<K2T, KCamel, BothCamelP>>)),
            P(AcB, A(3, 2, "HOOL"), Some(C(5, 1, "USD", NULL, NULL)), NULL, NULL, NULL) >>),
     Txn(D2, M0(6), "*", Some(""), "Only", NULL, NULL,
         << P(AcB, A(-8, 1, "EUR"), NULL, Some(A(5, 4, "USD")), NULL, Some(M0(7) \o << <<"k2", MVnull>> >>)) >>),
-    Open(D0, M0(10) \o <<K1s, BothT, KCamel, KTwin>>, AcA, <<"USD">>, Some("FIFO")),
+    Open(D0, M0(10) \o <<K1s, BothT, KCamel, KTwin, KPlug>>, AcA, <<"USD">>, Some("FIFO")),
     Open(D0, M0(11) \o <<BothCamelT>>, AcB, <<>>, NULL),
     Close(D2, M0(12) \o <<K1s>>, AcA),
-    Commodity(D0, M0(13) \o << <<"k1", MVa(3, 2, "USD")>>, K2T, KCamel >>, "USD"),
+    Commodity(D0, M0(13) \o << <<"k1", MVa(3, 2, "USD")>>, K2T, KCamel, KPlug >>, "USD"),
     Commodity(D1, M0(14) \o <<KTwin, BothCamelT>>, "HOOL"),
     Price(D1, M0(15), "HOOL", A(11, 2, "USD")),
     Balance(D1, M0(16), AcA, A(100, 1, "USD"), Some(<<1, 20>>), Some(A(-1, 2, "USD"))),
@@ -78,21 +86,23 @@ SmallAlpha == <<
    a price, a balance, a note, a pad *)
 SmallAlpha10 == [n \in 1..10 |-> SmallAlpha[<<1, 2, 3, 4, 6, 7, 9, 10, 11, 14>>[n]]]
 
-SmallKeys == <<"filename", "lineno", "k1", "k2", "both", "nokey", "isinCode", "isincode", "bOth">>
+SmallKeys == <<"filename", "lineno", "k1", "k2", "both", "nokey", "isinCode", "isincode", "bOth",
+               "__tolerances__", "__automatic__", "__plugin__">>
 
 (* ---- the generator alphabet ---- *)
 CostOpts == << NULL, Some(C(5, 1, "USD", NULL, NULL)), Some(C(21, 4, "USD", Some(D0), NULL)),
                Some(C(5, 1, "EUR", NULL, Some("lot1"))), Some(C(7, 2, "USD", Some(D1), Some("lot2"))) >>
 PriceOpts == << NULL, Some(A(6, 1, "USD")), Some(A(3, 2, "EUR")) >>
-PMetaOpts == << NULL, Some(M0(31)), Some(M0(32) \o <<K1s, BothP, KCamel>>),
-                Some(M0(33) \o << <<"k2", MVnull>>, <<"kd", MVdate(D1)>>, <<"kx", MVd(-7, 4)>>, BothCamelP, KTwin >>) >>
+PMetaOpts == << NULL, Some(M0(31) \o <<KAuto>>), Some(M0(32) \o <<K1s, BothP, KCamel>>),
+                Some(M0(33) \o << <<"k2", MVnull>>, <<"kd", MVdate(D1)>>, <<"kx", MVd(-7, 4)>>, BothCamelP, KTwin, KAuto >>) >>
 Pick(s, n) == s[(n % Len(s)) + 1]
 OddNums == <<3, 7, 9, 11, 13, 17, 19, 21, 23, 27, -3, -7, -9>>     \* coprime to 2 and 5: n / (1|2|4|5) is reduced
 
 (* 60 transactions: every combination of cost x price x posting-metadata option on the first posting *)
 FocusTxn(v) ==
     LET co == Pick(CostOpts, v) pr == Pick(PriceOpts, v \div 5) pm == Pick(PMetaOpts, v \div 15) IN
-    Txn(D0 + v, M0(100 + v) \o <<BothT, K2T>> \o (IF v % 4 < 2 THEN <<BothCamelT>> ELSE <<KCamel, KDash>>),
+    Txn(D0 + v, M0(100 + v) \o <<BothT, K2T>> \o (IF v % 4 < 2 THEN <<BothCamelT>> ELSE <<KCamel, KDash>>)
+            \o (IF v % 3 = 0 THEN <<>> ELSE IF v % 3 = 1 THEN <<KTol>> ELSE <<KTol0, KAutoT>>),
         IF v % 2 = 0 THEN "*" ELSE "!", Some("Pay"), "Narr", Some(<<"t1">>), Some(<<>>),
         << P(AcA, A(Pick(OddNums, v), Pick(<<1, 2, 4, 5>>, v \div 3), "HOOL"), co, pr, IF v % 3 = 0 THEN Some("!") ELSE NULL, pm),
            P(AcF, A(-3, 1, "USD"), NULL, NULL, NULL, Some(M0(200 + v))) >>)
@@ -111,7 +121,7 @@ ShapeTxns == <<
            P(AcB, A(-3, 1, "USD"), NULL, NULL, Some("*"), Some(M0(403))) >>),
     Txn(D2, M0(410), "*", NULL, "same account", Some(<<>>), Some(<<>>),
         << P(AcF, A(1, 1, "USD"), NULL, NULL, NULL, NULL), P(AcF, A(-1, 1, "USD"), NULL, NULL, NULL, NULL) >>),
-    Txn(D2 + 1, M0(420), "P", NULL, "(Padding inserted)", Some(<<>>), Some(<<>>),
+    Txn(D2 + 1, M0(420) \o <<KTol>>, "P", NULL, "(Padding inserted)", Some(<<>>), Some(<<>>),
         << P(AcA, A(110, 1, "USD"), NULL, NULL, NULL, NULL), P("Equity:O", A(-110, 1, "USD"), NULL, NULL, NULL, NULL) >>),
     Txn(D2 + 2, M0(430) \o << <<"kb", MVb(1)>>, <<"ka", MVa(5, 2, "EUR")>> >>, "*", Some("Four"), "four postings", Some(<<"t2">>), Some(<<"l1", "l2">>),
         << P(AcA, A(1, 4, "EUR"), NULL, Some(A(9, 8, "USD")), NULL, Some(M0(431) \o << <<"kb", MVb(0)>> >>)),
@@ -121,17 +131,17 @@ ShapeTxns == <<
     Txn(D0, M0(440), "*", NULL, "no postings", Some(<<>>), Some(<<>>), <<>>) >>
 OtherDirectives == <<
     Open(D0, M0(500) \o <<K1s, BothT, KCamel, KTwin, <<"tax-Id_2", MVb(1)>> >>, AcA, <<"USD", "HOOL">>, Some("FIFO")),
-    Open(D0 + 1, M0(501) \o <<BothCamelT>>, AcB, <<>>, NULL),
+    Open(D0 + 1, M0(501) \o <<BothCamelT, KPlug>>, AcB, <<>>, NULL),
     Open(D0 + 2, M0(502) \o << <<"kd", MVdate(D2)>>, <<"kx", MVd(5, 2)>>, <<"k2", MVnull>>, <<"isinCode", MVdate(D1)>> >>, AcF, <<>>, Some("STRICT")),
     Close(D2, M0(503) \o <<K1s>>, AcA),
     Close(D2 + 3, M0(504), AcB),
     Close(D2, M0(505), "Assets:Z"),
     Commodity(D0, M0(506) \o << <<"k1", MVa(3, 2, "USD")>>, K2T, <<"kb", MVb(1)>>, <<"kd", MVdate(D0)>>, <<"kx", MVd(1, 8)>>,
                                <<"isinCode", MVs("US0000000001")>>, <<"isincode", MVi(840)>> >>, "USD"),
-    Commodity(D1, M0(507) \o <<KCamel, KDash>>, "HOOL"),
+    Commodity(D1, M0(507) \o <<KCamel, KDash, KPlug>>, "HOOL"),
     Commodity(D1, M0(508) \o << <<"both", MVs("eur")>>, <<"k2", MVnull>>, <<"bOth", MVd(3, 8)>>, KTwin >>, "EUR"),
     Price(D1, M0(509), "HOOL", A(11, 2, "USD")),
-    Price(D2, M0(510) \o <<K1s>>, "EUR", A(9, 8, "USD")),
+    Price(D2, M0(510) \o <<K1s, KPlug>>, "EUR", A(9, 8, "USD")),
     Balance(D1, M0(511), AcA, A(100, 1, "USD"), NULL, NULL),
     Balance(D1, M0(512) \o <<K2T>>, AcB, A(-5, 4, "EUR"), Some(<<1, 20>>), Some(A(-1, 2, "EUR"))),
     Note(D1, M0(513), AcA, "a note", NULL, NULL),
@@ -173,5 +183,5 @@ DupGenAlpha == << FocusTxn(17), FocusTxn(2) >> \o DupDirectives
 
 GenAlpha == [v \in 1..60 |-> FocusTxn(v - 1)] \o [v \in 1..18 |-> AttrTxn(v - 1)] \o ShapeTxns \o OtherDirectives
 GenKeys == <<"filename", "lineno", "k1", "k2", "both", "kd", "kx", "kb", "ka", "nokey",
-             "isinCode", "isincode", "bOth", "tax-Id_2", "ISINCODE">>
+             "isinCode", "isincode", "bOth", "tax-Id_2", "ISINCODE", "__tolerances__", "__automatic__", "__plugin__">>
 =============================================================================
